@@ -5,5 +5,5 @@ cd "$(dirname "$0")/.."
 [ -n "$VP_RUN_REPO" ] && export VERIF_REPO=$VP_RUN_REPO
 ./setup.sh >/dev/null 2>&1
 for p in C11 C12 C13 C16 C18 C09 C10 C17 C01 C02 C03 C04 C05 C06 C07 C08 C14 C15 C19; do
-  /usr/bin/time -f "%es %MKB" ./check $p --tier thorough 2>&1 | grep -v "^KNOWN-FINDING" | tail -2
+  /usr/bin/time -f "%es %MKB" ./check $p --tier thorough 2>&1 | grep -v "^KNOWN-FINDING" | tail -3
 done
